@@ -36,6 +36,12 @@ type kase struct {
 	Kind string   `json:"kind"` // aseq aqseq multi mqulti
 	Rows []rowDef `json:"rows"`
 	Ops  []string `json:"ops"`
+	// Shared (Multi): the last row object is held a second time, at the position after it (`Add(b, b)`); only
+	// operations that treat a row held twice like two equal rows are applied to such a container (Flush)
+	Shared bool `json:"last_row_held_twice,omitempty"`
+	// CaseFilter (alignment.QSeq): the container's quality filter is the library's seq.CaseFilter and its
+	// threshold 22 (letters at or above it are shown as they are, whatever the filter would make of them)
+	CaseFilter bool `json:"case_filter,omitempty"`
 }
 
 // ---- model
@@ -169,12 +175,21 @@ func build(k kase) (container, *model) {
 		if err != nil {
 			panic(err)
 		}
+		if k.CaseFilter {
+			s.QFilter = seq.CaseFilter
+			s.Threshold = 22
+		}
 		return s, m
 	}
 	var rows []seq.Sequence
 	for r, mr := range m.rows {
 		rows = append(rows, mkLinear(k.Kind == "mqulti", mr.name, mr.off, mr.cells))
 		_ = r
+	}
+	if k.Shared && len(rows) > 0 {
+		rows = append(rows, rows[len(rows)-1])
+		last := m.rows[len(m.rows)-1]
+		m.rows = append(m.rows, mrow{name: last.name, off: last.off, cells: append([]alphabet.QLetter{}, last.cells...)})
 	}
 	mm, err := multi.NewMulti("m", rows, seq.DefaultConsensus)
 	if err != nil {
@@ -743,7 +758,7 @@ func search(c *enum.Ctx, base kase, depth int, states, trans, traces *atomic.Int
 }
 
 func run(c *enum.Ctx) {
-	c.Rule("initial grids: alignment.Seq/QSeq 1..3 rows x 1..3 columns, multi.Multi (plain and quality rows) with every layout of 1..3 rows (quick: three-row layouts only with edit sequences of length <= 2; offsets 0..2, lengths 1..3; plus five layouts with rows that hold no letters yet) over letters {a,c,g,-} with distinct qualities; breadth-first search over edit sequences of depth <=3 (thorough 4) over {AppendColumns 1/2 columns, AppendEach with two unequal run shapes, Delete first/last, Add a linear sequence, Flush start/end/both, Truncate (covered range, and one shorter), Subseq, Clone-and-continue, Clone-and-keep, Set}; caller buffers are overwritten after every append; after each edit Row(i).At(p), Column(p,true/false), ColumnQL(p,true), Rows/Len/Start/End, row names and the count consensus of uniform columns are compared with a plain grid model, and every retained clone/original must be unchanged; the size ladder: grids with 2^k-1, 2^k, 2^k+1 (also 3*2^k, 10^j-1, 10^j, 10^j+1, 5*10^j) columns (3..257, thorough 1025) and appends of that many columns / runs of that many, half that many and no letters, under nine fixed edit lists; states merged on the model grid (first two levels unmerged)")
+	c.Rule("initial grids: alignment.Seq/QSeq 1..3 rows x 1..3 columns, multi.Multi (plain and quality rows) with every layout of 1..3 rows (quick: three-row layouts only with edit sequences of length <= 2; offsets 0..2, lengths 1..3; plus five layouts with rows that hold no letters yet) over letters {a,c,g,-} with distinct qualities; breadth-first search over edit sequences of depth <=3 (thorough 4) over {AppendColumns 1/2 columns, AppendEach with two unequal run shapes, Delete first/last, Add a linear sequence, Flush start/end/both, Truncate (covered range, and one shorter), Subseq, Clone-and-continue, Clone-and-keep, Set}; caller buffers are overwritten after every append; after each edit Row(i).At(p), Column(p,true/false), ColumnQL(p,true), Rows/Len/Start/End, row names and the count consensus of uniform columns are compared with a plain grid model, and every retained clone/original must be unchanged; the size ladder: grids with 2^k-1, 2^k, 2^k+1 (also 3*2^k, 10^j-1, 10^j, 10^j+1, 5*10^j) columns (3..257, thorough 1025) and appends of that many columns / runs of that many, half that many and no letters, under nine fixed edit lists; a quality alignment with the library's CaseFilter and a threshold of 22; a Multi whose last row object is held twice, flushed at either end and at both; states merged on the model grid (first two levels unmerged)")
 	c.Assume("column-stored alignments at offset 0; alignment.QSeq.Column compared only where the quality is at least the container's threshold", "fill letter for uncovered rows is the alphabet's gap with quality 0")
 	depth := 3
 	maxRows := 2
@@ -844,6 +859,20 @@ func run(c *enum.Ctx) {
 				for _, ops := range [][]string{{"AE"}, {"CK", "AC1", "SET"}, {"FB", "TR1"}, {"SS", "AE2"}, {"DLl", "ADD"}} {
 					ladder = append(ladder, kase{Kind: kind, Rows: big, Ops: ops})
 				}
+			}
+		}
+	}
+	// a quality alignment whose filter is not the default one
+	for _, rows := range [][]rowDef{{{0, "ac-g"}, {0, "g-ca"}}, {{0, "a-"}, {0, "-c"}, {0, "gg"}}} {
+		for _, ops := range [][]string{{"AC1"}, {"AE"}, {"CL", "AC2"}, {"SET"}, {"FB"}, {"SS"}} {
+			ladder = append(ladder, kase{Kind: "aqseq", Rows: rows, Ops: ops, CaseFilter: true})
+		}
+	}
+	// a row object held twice (what Add(b, b) makes), flushed at either end and at both
+	for _, kind := range []string{"multi", "mqulti"} {
+		for _, rows := range [][]rowDef{{{0, "ac"}, {2, "g"}}, {{1, "acg"}, {0, "c"}}, {{0, "a"}, {1, "cg"}, {3, "a"}}, {{2, "ac"}}} {
+			for _, op := range []string{"FS", "FE", "FB"} {
+				ladder = append(ladder, kase{Kind: kind, Rows: rows, Ops: []string{op}, Shared: true})
 			}
 		}
 	}
